@@ -607,7 +607,7 @@ def opt(case, name):
     return case["opts"].get(name, _DEF[s][name])
 
 
-def to_request(case, A):
+def to_request(case, A, orig=False):
     s = case["solver"]
     n = len(A["fs"])
     stop = case.get("stop", 0)
@@ -635,11 +635,45 @@ def to_request(case, A):
         tol = rat(opt(case, "tol"))
     bounds = [[rat(lo), rat(hi)] for lo, hi in case["bounds"]] if case.get("bounds") else None
     point = A["sol"] if bounds else None
-    return ["run", s, case["minimize"], A["fs"], A["starts"], A["coins"], ps, tol, cands, A["obj"], A["fsol"], A["evals"],
+    return ["run", s, orig, case["minimize"], A["fs"], A["starts"], A["coins"], ps, tol, cands, A["obj"], A["fsol"], A["evals"],
             bounds, point]
 
 
-def judge(ctx, case, out, reply):
+def divergence(case, A, reply):
+    """Where the skeleton replay of the recorded stream differs from what the implementation returned/did."""
+    s = case["solver"]
+    m_obj, m_idx, m_evals, m_trace = reply[:4]
+    n = len(A["fs"])
+    div = []
+    if frac_of(m_obj) != frac_of(A["obj"]):
+        div.append(f"objective: skeleton {frac_of(m_obj)} impl {frac_of(A['obj'])}")
+    if m_evals != n:
+        div.append(f"evaluations: skeleton consumed {m_evals} of {n} recorded calls")
+    if m_idx not in A["matches"]:
+        div.append(f"solution: skeleton returns candidate #{m_idx}, impl returned one of {A['matches'][:5]}")
+    if s in ("anneal", "lns", "alns", "tabu"):
+        seen = A["cur_at_call"][1:]
+        if m_trace[: len(seen)] != seen:
+            div.append(f"current-solution trace differs: skeleton {m_trace[:12]} impl {seen[:12]}")
+    return div
+
+
+class _Ctx:
+    """ctx.fail with a per-class counter in the histogram."""
+
+    def __init__(self, ctx):
+        self.ctx = ctx
+
+    def __getattr__(self, k):
+        return getattr(self.ctx, k)
+
+    def fail(self, fn, klass, what, rep):
+        self.ctx.count(f"fail:{fn}:{klass}")
+        return self.ctx.fail(fn, klass, what, rep)
+
+
+def judge(ctx, case, out, reply, alt=None):
+    ctx = _Ctx(ctx)
     s = case["solver"]
     fn = FN[s]
     rep = {"case": case, "impl": out, "model": reply}
@@ -708,18 +742,12 @@ def judge(ctx, case, out, reply):
     nontrivial = False
     if s in SKELETON:
         n = len(A["fs"])
-        div = []
-        if frac_of(m_obj) != obj:
-            div.append(f"objective: skeleton {frac_of(m_obj)} impl {obj}")
-        if m_evals != n:
-            div.append(f"evaluations: skeleton consumed {m_evals} of {n} recorded calls")
-        if m_idx not in A["matches"]:
-            div.append(f"solution: skeleton returns candidate #{m_idx}, impl returned one of {A['matches'][:5]}")
-        if s in ("anneal", "lns", "alns", "tabu"):
-            seen = A["cur_at_call"][1:]
-            if m_trace[: len(seen)] != seen or len(m_trace) < len(seen):
-                div.append(f"current-solution trace differs: skeleton {m_trace[:12]} impl {seen[:12]}")
-        if div and not failed:
+        div = divergence(case, A, reply)
+        if div and not failed and alt is not None and not divergence(case, A, alt):
+            # lns with a user acceptance callback on a tree without the repair C19_lns_best: the run follows the
+            # skeleton of the rule as written (`lnsStepOrig`); the defect itself is reported where R_prop fails
+            ctx.count("r_trace_agree_unrepaired_lns_rule")
+        elif div and not failed:
             ctx.tdiv(fn, {"case": case, "divergence": div, "impl": {k: A[k] for k in ("sol", "obj", "evals", "iters")},
                           "model": reply})
         elif not div:
@@ -753,11 +781,15 @@ def run_cases(ctx, cases):
             reqs.append(to_request(c, o[1]["A"]))
     replies = Driver("Search").run(reqs, chunks=8)
     by = dict(zip(where, replies))
-    for i, (c, o) in enumerate(zip(cases, outs)):
-        rp = by.get(i)
+    for i, rp in by.items():
         if rp and rp[0] == "error":
-            raise Infra(f"model rejected request for {c}: {rp}")
-        judge(ctx, c, o, rp)
+            raise Infra(f"model rejected request for {cases[i]}: {rp}")
+    # second replay (rule of the unchanged tree) for lns runs with a user acceptance callback that diverge
+    again = [i for i in where if cases[i]["solver"] == "lns" and outs[i][1]["A"]["accept_kind"] == 3
+             and divergence(cases[i], outs[i][1]["A"], by[i])]
+    alts = dict(zip(again, Driver("Search").run([to_request(cases[i], outs[i][1]["A"], orig=True) for i in again])))
+    for i, (c, o) in enumerate(zip(cases, outs)):
+        judge(ctx, c, o, by.get(i), alts.get(i))
 
 
 PER_SOLVER = {"anneal": 260, "tabu": 220, "lns": 260, "alns": 260, "evolve": 220, "de": 160, "pso": 160, "nm": 260,
